@@ -239,7 +239,7 @@ def main(prop: str, tier: str) -> int:
                 samples.append({'config': name, 'behaviour': json.loads(behs[len(behs) // 2])})
             items = list(enumerate(behs))
             jobs = [(L, ch) for ch in common.chunked(items, 400)]
-            for nsteps, out in pool.imap_unordered(store_replay.replay_chunk, jobs):
+            for nsteps, out in common.gmap(pool, rep, store_replay.replay_chunk, jobs):
                 steps += nsteps
                 for k, res, beh in out:
                     drift += res['drift']
